@@ -1,3 +1,10 @@
 package main
 
-func dumpMore2(out map[string]any) {}
+// dumpers: each property's harness file may register a function adding tables to the dump (T1).
+var dumpers []func(out map[string]any)
+
+func dumpMore2(out map[string]any) {
+	for _, d := range dumpers {
+		d(out)
+	}
+}
